@@ -62,7 +62,10 @@ use std::ops::{Deref, Index};
 #[cfg(not(target_family = "wasm"))]
 use std::os::fd::AsRawFd;
 use std::path::{Path, PathBuf};
+#[cfg(not(simple_sds_verif))]
 use std::sync::atomic::{AtomicUsize, Ordering};
+#[cfg(simple_sds_verif)]
+use crate::verif_hooks::{AtomicUsize, Ordering};
 use std::{env, fs, io, mem, process, slice, str};
 #[cfg(not(target_family = "wasm"))]
 use std::{marker, ptr};
@@ -233,6 +236,8 @@ impl<V: Serializable> Serialize for Vec<V> {
         let mut value: Vec<V> = Vec::with_capacity(size);
 
         unsafe {
+            #[cfg(simple_sds_verif)]
+            crate::verif_hooks::carve("Vec<V>::load", 0, size * mem::size_of::<V>(), value.capacity() * mem::size_of::<V>());
             let buf: &mut [u8] = slice::from_raw_parts_mut(value.as_mut_ptr() as *mut u8, size * mem::size_of::<V>());
             reader.read_exact(buf)?;
             value.set_len(size);
@@ -440,6 +445,8 @@ impl MemoryMap {
             MappingMode::Mutable => libc::PROT_READ | libc::PROT_WRITE,
         };
         let ptr = unsafe { libc::mmap(ptr::null_mut(), len, prot, libc::MAP_SHARED, file.as_raw_fd(), 0) };
+        #[cfg(simple_sds_verif)]
+        crate::verif_hooks::syscall("mmap", ptr as usize, len, if ptr == libc::MAP_FAILED { -1 } else { 0 });
         if ptr == libc::MAP_FAILED {
             return Err(Error::new(ErrorKind::Other, "Memory mapping failed"));
         }
@@ -673,6 +680,8 @@ impl<'a, T: Serializable> MemoryMapped<'a> for MappedSlice<'a, T> {
             return Err(Error::new(ErrorKind::UnexpectedEof, "The file is too short"));
         }
         let source: &[u64] = &slice[offset + 1 ..];
+        #[cfg(simple_sds_verif)]
+        crate::verif_hooks::carve("MappedSlice::new", (offset + 1) * bits::WORD_BYTES, len * mem::size_of::<T>(), map.len() * bits::WORD_BYTES);
         let data: &[T] = unsafe { slice::from_raw_parts(source.as_ptr() as *const T, len) };
         Ok(MappedSlice {
             data, offset,
@@ -772,6 +781,8 @@ impl<'a> MemoryMapped<'a> for MappedBytes<'a> {
             return Err(Error::new(ErrorKind::UnexpectedEof, "The file is too short"));
         }
         let source: &[u64] = &slice[offset + 1 ..];
+        #[cfg(simple_sds_verif)]
+        crate::verif_hooks::carve("MappedBytes::new", (offset + 1) * bits::WORD_BYTES, len, map.len() * bits::WORD_BYTES);
         let data: &[u8] = unsafe { slice::from_raw_parts(source.as_ptr() as *const u8, len) };
         Ok(MappedBytes {
             data, offset,
@@ -859,6 +870,8 @@ impl<'a> MemoryMapped<'a> for MappedStr<'a> {
             return Err(Error::new(ErrorKind::UnexpectedEof, "The file is too short"));
         }
         let source: &[u64] = &slice[offset + 1 ..];
+        #[cfg(simple_sds_verif)]
+        crate::verif_hooks::carve("MappedStr::new", (offset + 1) * bits::WORD_BYTES, len, map.len() * bits::WORD_BYTES);
         let bytes: &[u8] = unsafe { slice::from_raw_parts(source.as_ptr() as *const u8, len) };
         let data = str::from_utf8(bytes).map_err(|_| Error::new(ErrorKind::InvalidData, "Invalid UTF-8"))?;
         Ok(MappedStr {
